@@ -5,6 +5,7 @@
 #include "../../sim/simkit.hpp"
 
 #include <array>
+#include <complex>
 #include <memory>
 #include <typeinfo>
 #include <vector>
@@ -46,6 +47,17 @@ namespace
     using namespace clops;
 
     using P = Tracked<21, 8, true, false>;     // copies and moves are counted by the registry
+
+    // a payload whose assignment can be made to throw
+    struct ThrowsOnAssign
+    {
+        int v;
+        static bool armed;
+        explicit ThrowsOnAssign(int x) : v(x) {}
+        ThrowsOnAssign(const ThrowsOnAssign&) = default;
+        ThrowsOnAssign& operator=(const ThrowsOnAssign& o) { if (armed) throw Injected(); v = o.v; return *this; }
+    };
+    bool ThrowsOnAssign::armed = false;
 
     struct Referent
     {
@@ -930,8 +942,9 @@ namespace
         {
             static const char* const vn[] = {"own_from_proxy_lvalue", "own_from_proxy_moved", "own_from_proxy_temporary", "construct_own_from_proxy_temporary", "construct_own_from_proxy_moved",
                                              "proxy_from_own_lvalue", "proxy_from_own_moved", "own_from_proxy_const", "swap_same_referent_different_flags",
-                                             "own_from_lvalue_value_rvalue_flag", "own_from_lvalue_value_lvalue_flag"};
-            unsigned v = static_cast<unsigned>(st.d % 11);
+                                             "own_from_lvalue_value_rvalue_flag", "own_from_lvalue_value_lvalue_flag",
+                                             "value_wrapper_built_directly_from_lvalue", "assigned_value_throws_under_clear_flag", "assigned_value_reads_own_flag", "real_imag_of_temporaries"};
+            unsigned v = static_cast<unsigned>(st.d % 15);
             int r = static_cast<int>(st.c % 3);
             Scope sc(*this, st, "cross_closure", vn[v]);
             Referent& f = *refs[r];
@@ -939,6 +952,63 @@ namespace
             using Proxy = xtl::xoptional<P&, bool&>;
             uint64_t id = fresh();
             uint64_t before = val[r];
+            if (v == 11)
+            {
+                // an owning wrapper (value closure) constructed directly, not through closure(), from the caller's non-const
+                // lvalue: it copies, the caller's object keeps its value
+                uint64_t copies = registry().copies;
+                { xtl::xclosure_wrapper<P> w(f.obj); if (w.get().id != before) viol("model", "read", "a value wrapper built from an lvalue holds another value"); }
+                if (registry().copies == copies) viol("model", "own", "a value wrapper built directly from the caller's lvalue did not copy it");
+                SIM_PROBE("cross_closure_kind_assignment");
+                check_all();       // the referent must not have been moved from
+                return;
+            }
+            if (v == 12)
+            {
+                // the flag of an optional is set by a value assignment AFTER the value arrived: if storing the value throws,
+                // a clear flag stays clear (nothing was stored)
+                ThrowsOnAssign x(5); bool fl = false;
+                xtl::xoptional<ThrowsOnAssign&, bool&> o(x, fl);
+                ThrowsOnAssign y(6);
+                ThrowsOnAssign::armed = true;
+                bool threw = false;
+                try { if (st.b & 1) o = y; else o = ThrowsOnAssign(7); } catch (const Injected&) { threw = true; }
+                ThrowsOnAssign::armed = false;
+                if (!threw) viol("model", "exception", "the payload's throwing assignment did not run or its exception was swallowed");
+                if (fl) viol("model", "flag", "assigning a value whose assignment throws left the flag set although no value was stored");
+                if (x.v != 5) viol("model", "value", "a failed value assignment changed the value");
+                o = y;
+                if (!fl || x.v != 6) viol("model", "write-through", "a value assignment did not reach value and flag");
+                SIM_PROBE("cross_closure_kind_assignment");
+                check_all();
+                return;
+            }
+            if (v == 13)
+            {
+                // the assigned expression is the optional's own flag referent: the value is read before the flag is set
+                int a = 7; bool there = false;
+                xtl::xoptional<int&, bool&> o(a, there);
+                if (st.b & 1) o = there; else o = static_cast<const bool&>(o.has_value());
+                if (a != 0 || !there) viol("model", "order", "o = <its own clear flag> gave value " + std::to_string(a) + ", flag " + (there ? "set" : "clear") + "; expected value 0 (what was assigned), flag set");
+                SIM_PROBE("cross_closure_kind_assignment");
+                check_all();
+                return;
+            }
+            if (v == 14)
+            {
+                // real()/imag() of a temporary std::complex or scalar hand out a value, not a reference into the dead temporary
+                double re = static_cast<double>(id), im = -re;
+                using SC = std::complex<double>;
+                uint64_t g1 = after_death(SC(re, im), [](SC&& x) -> decltype(auto) { return xtl::real(std::move(x)); });
+                uint64_t g2 = after_death(SC(re, im), [](SC&& x) -> decltype(auto) { return xtl::imag(std::move(x)); });
+                uint64_t g3 = after_death(re, [](double&& x) -> decltype(auto) { return xtl::real(std::move(x)); });
+                uint64_t g4 = after_death(re, [](double&& x) -> decltype(auto) { return xtl::imag(std::move(x)); });
+                if (g1 == DANGLING || g2 == DANGLING || g3 == DANGLING || g4 == DANGLING) viol("model", "dangling", "real()/imag() of a temporary returned a reference into the temporary");
+                if (g1 != id || g2 != id || g3 != id || g4 != 0) viol("model", "read", "real()/imag() of a temporary std::complex / scalar read other values");
+                SIM_PROBE("cross_closure_kind_assignment");
+                check_all();
+                return;
+            }
             if (v >= 9)
             {
                 // an owning optional (explicit value closure) constructed from the caller's lvalue value copies it - with an
